@@ -587,7 +587,7 @@ def gen_store(rng, n):
         k = rng.below(10)
         if k < 6:     # op sequences over two machines, a remote and the fault lists (small contents only: every observation prints them)
             line = so.gen_case_(rng, local_only=rng.chance(1, 4))
-            if rng.chance(1, 4):
+            if rng.chance(1, 4) and "\tlf=" not in line:
                 f = line.split("\t")
                 f.insert(2, "lf=" + ",".join(rng.choice(["o", "o", "e", "l"]) for _ in range(1 + rng.below(4))))
                 line = "\t".join(f)
@@ -627,7 +627,9 @@ def conv_store(line, st):
     def wop(o):
         x = o.split(":")
         if len(x) == 2 and x[0] == "reset":
-            return "Some %s" % par(app("Reset", mach[x[1]]))
+            return par(app("XOp", par(app("Reset", mach[x[1]]))))
+        if (o.startswith("lbreak:") or o.startswith("lfix:")) and len(o) > 7:
+            return "XNoop"
         a = None
         if x[0] == "b" and len(x) >= 6:
             m, md, verb, p, k, rest = x[1], x[2], x[3], path[x[4]], s(x[5]), x[6:]
@@ -643,10 +645,10 @@ def conv_store(line, st):
                  "write": lambda: app("ASet", "PTarget", k, s("r" + rest[0].replace(".", ",") if rest else "r")) if len(rest) <= 1 else None
                  }.get(verb, lambda: None)()
         else:
-            return "None"
+            return "XBad"
         if a is None:
             raise Unsupported("store op the driver rejects")
-        return "Some %s" % par(app("Do", mach[m], mode[md], a))
+        return par(app("XOp", par(app("Do", mach[m], mode[md], a))))
     if f[0] == "case":
         rf = [] if f[1] in ("-", "") else [{"n": "FNone", "f": "FFail", "m": "FFail", "e": "FEarly", "4": "FNotFound"}[x] for x in f[1].split(",")]
         ops, lf = f[2:], []
